@@ -3,8 +3,10 @@ import itertools
 from .lib import *
 
 RULE = ("exhaustive product (both tiers): request version {1.0,1.1} x request Connection {absent, close, keep-alive, [keep-alive, close]} x "
-        "handshake {GET, POST, POST+Expect continued, POST+Expect given up, POST+Expect refused bare, POST+Expect refused with fields} x "
-        "response version {1.0,1.1} x status {200, 302, 404} x framing {length 0, length 3, chunked, close-delimited} x response "
+        "handshake {GET, POST, POST+Expect continued, POST+Expect given up, POST+Expect refused bare, POST+Expect refused with fields, "
+        "POST+Expect answered by an interim 102} x response version {1.0,1.1} x status {200, 302, 404} x framing {length 0, length 3, "
+        "chunked, close-delimited, close-delimited with Transfer-Encoding: gzip}; plus 3xx heads returned before they are complete "
+        "(message boundary lost) x response "
         "Connection {absent, close, keep-alive, [keep-alive, close]}; every flow is driven to Cleanup and, for 302, also inspected in "
         "Redirect. oracle = disjunction of the five conditions computed from the script, reason must name a true condition. "
         "non-trivial/distinct = every combination")
@@ -15,8 +17,8 @@ EXHAUSTIVE = {"quick": True, "thorough": True}
 _stats = {"must_close": 0, "reusable": 0}
 
 REQ_CONN = ["absent", "close", "keep-alive", "both"]
-HANDSHAKE = ["get", "post", "expect-continue", "expect-giveup", "expect-refused", "expect-refused-fields"]
-FRAMING = ["len0", "len3", "chunked", "close"]
+HANDSHAKE = ["get", "post", "expect-continue", "expect-giveup", "expect-refused", "expect-refused-fields", "expect-refused-1xx"]
+FRAMING = ["len0", "len3", "chunked", "close", "close-te"]
 REASONS = {
     b"version is http1.0": "h10",
     b"client sent Connection: close": "ccl",
@@ -54,10 +56,16 @@ def build(rv, rconn, hs, sv, status, framing, sconn):
     elif framing == "chunked":
         fields.append((b"Transfer-Encoding", b"chunked"))
         body = b"3\r\nabc\r\n0\r\n\r\n"
+    elif framing == "close-te":
+        # close-delimited although a Transfer-Encoding field is present (chunked is not the final coding)
+        fields.append((b"Transfer-Encoding", b"gzip"))
+        body = b"abc"
     else:
         body = b"abc"
-    refused = hs in ("expect-refused", "expect-refused-fields")
-    if refused:
+    refused = hs in ("expect-refused", "expect-refused-fields", "expect-refused-1xx")
+    if hs == "expect-refused-1xx":
+        st = 102      # an interim response other than 100 while awaiting 100 is a refusal too
+    elif refused:
         st = 403 if status != 302 else 302
     else:
         st = status
@@ -69,7 +77,7 @@ def build(rv, rconn, hs, sv, status, framing, sconn):
     elif hs == "expect-refused":
         # a bare head without fields: only possible when the response has no fields at all; use the status line + CRLF of the real head
         ops += ["raw_try100 %s" % hx(head), "q_keep_await", "proceed"]
-    elif hs == "expect-refused-fields":
+    elif hs in ("expect-refused-fields", "expect-refused-1xx"):
         ops += ["raw_try100 %s" % hx(head), "q_keep_await", "proceed"]
     if method == "POST" and not refused:
         ops += ["write_body %s #100" % hx(b"hi"), "proceed"]
@@ -82,7 +90,20 @@ def build(rv, rconn, hs, sv, status, framing, sconn):
 def generate(rng, tier, mult):
     out = []
     for combo in itertools.product(["1.0", "1.1"], REQ_CONN, HANDSHAKE, ["1.0", "1.1"], [200, 302, 404], FRAMING, REQ_CONN):
+        if combo[5] == "close-te" and combo[4] == 302:
+            continue
         out.append(build(*combo))
+    # message boundary lost: a 3xx head with Location that is not complete yet is returned as a response (known finding F10 of C05);
+    # whatever Connection field it carries, the connection must not be offered for reuse
+    for sconn in REQ_CONN:
+        for order in (0, 1):
+            for cut in (2, 9):
+                fields = [(b"Location", b"/n")]
+                fields = (conn_fields(sconn) + fields) if order == 0 else (fields + conn_fields(sconn))
+                head = render_response_head("1.1", 302, b"S", fields + [(b"X-Last", b"abcdefgh")])
+                ops = [op_new("GET", "1.1", "http", "a.test", "/", []), "proceed", "write_head #4096", "proceed",
+                       "raw_try_response %s" % hx(head[:-cut]), "proceed", "q_must_close", "q_close_reason", "proceed", "q_must_close", "q_close_reason"]
+                out.append({"ops": ops, "meta": {"combo": ["partial-redirect", sconn, order, cut]}})
     return out
 
 
@@ -91,9 +112,17 @@ def stats():
 
 
 def oracle(script, obs):
-    rv, rconn, hs, sv, st, framing, sconn = script["meta"]["combo"]
     if any(o == "panic" for o in obs):
         return ["panic in %s" % script["meta"]["combo"]]
+    if script["meta"]["combo"][0] == "partial-redirect":
+        i = next(k for k, op in enumerate(script["ops"]) if op.startswith("raw_try_response"))
+        if not obs[i].startswith("some"):
+            return []      # the incomplete head was not returned: nothing to say here
+        for op, o in zip(script["ops"], obs):
+            if op == "q_must_close" and o == "false":
+                return ["%s: a response was returned from an incomplete head (message boundary lost) but the connection is offered for reuse" % script["meta"]["combo"]]
+        return []
+    rv, rconn, hs, sv, st, framing, sconn = script["meta"]["combo"]
     ops = script["ops"]
     facts = set()
     if rv == "1.0":
@@ -102,14 +131,15 @@ def oracle(script, obs):
         facts.add("ccl")
     if sconn in ("close", "both"):
         facts.add("scl")
-    if hs in ("expect-refused", "expect-refused-fields"):
+    if hs in ("expect-refused", "expect-refused-fields", "expect-refused-1xx"):
         facts.add("n100")
+    has_body = not (100 <= st <= 199 or st in (204, 304))
     method = "GET" if hs == "get" else "POST"
     # close-delimited body: no framing header, and the rules give a body (not 302-without-framing)
-    if framing == "close" and st != 302:
+    if framing in ("close", "close-te") and st != 302 and has_body:
         facts.add("cdl")
     # also: chunked on an HTTP/1.0 response is not chunked: falls back to close-delimited (no Content-Length)
-    if framing == "chunked" and sv == "1.0" and st != 302:
+    if framing == "chunked" and sv == "1.0" and st != 302 and has_body:
         facts.add("cdl")
     want = len(facts) > 0
     _stats["must_close" if want else "reusable"] += 1
